@@ -50,4 +50,9 @@ theorem new_inf_ceiling_capped :
     computeDelayWith (some 1023) true (cfg (.fin ((2 : Rat) ^ 1023)) (.fin 1) 3) 1 none 0 = .ok (.fin 1, false) := by
   decide +kernel
 
+/-- a guard that only consults the token is re-armed by an in-flight `exchange()` storing its token after a re-entrant
+    cancel: two cancel POSTs for one stream (seeded change C38-9; not present on the pinned tree) -/
+theorem token_only_guard_duplicates_cancel :
+    cancelPosts .noTokenOnly ⟨false, true⟩ [.cancel, .storeToken, .cancel] = 2 := by decide
+
 end VgiVerif.C38.Findings
